@@ -4,16 +4,24 @@ Proof side: Props/C14.lean (generic memo theorem from `KeyCongruent`, per key di
 Extracted/Memo.lean, regenerated here from the AST of the code on every run).
 
 Tie and oracle, on the REAL code:
-  * fresh-interpreter differential (the property itself): every query of a generated history is answered in
-    the process that lived through the history AND in a fresh interpreter that only executed the history's world
-    operations (class and function definitions); the two answers must be identical. Both run in fork()ed copies
-    of a pristine interpreter (harness/impl/c14.py).
-  * lock-step of the table model: the instrumented history process reports, per operation, what the real
-    dictionaries show (checker-table hit, what `_hint_repr_to_hint` holds, `_HINT_TO_WRAPPER` hit, id-table hit);
-    the Lean model (`Driver/C14.lean`, in the repair state extracted from the code) must predict the same.
+  * fresh-interpreter differential (the property itself): every query of a generated history is keyed by
+    (the definitions it refers to, the query). Its answers are collected from every history process it occurs in and
+    from two extra batch processes per group of queries over the same definitions (asked in order / in reverse order:
+    histories themselves, whose first query meets a truly fresh interpreter). Every key whose answers are not all
+    identical, plus a seeded sample of the others, is asked of a fresh interpreter of its own; an occurrence that
+    differs from a fresh answer is a violation and the (shrunk) history around it is the replay. A fresh interpreter
+    is a fork() of a process that imported beartype and asked nothing (harness/impl/c14.py); forks are the expensive
+    step on this machine, hence the budgeted use of true fresh answers.
+  * lock-step of the table model: in histories restricted to what the model describes exactly (root-level
+    is_bearable / die_if_unbearable on hints with plain children, TypeHint.is_subhint, (re)definitions, clear_caches())
+    the instrumented history process reports per operation what the real dictionaries show (checker-table hit and
+    insertion, what `_hint_repr_to_hint` holds for the hint's repr, `_HINT_TO_WRAPPER` hit, id-table hit, stale hit);
+    the Lean model (`Driver/C14.lean`, in the repair state extracted from the code) must predict the same (exactly
+    for the checker / repr tables; "every entry the model has exists" for the wrapper / id tables).
 Histories are adversarial by construction (look-alikes under ==/hash, same-named class redefinition with and
-without @beartype, unhashable hints churned to force id() reuse, clear_caches() followed by new wrappers,
-forward references failing now and defined later); non-triviality is MEASURED in the history process.
+without @beartype, unhashable hints churned to force id() reuse, clear_caches() followed by new wrappers, forward
+references failing now and defined later, configurations alternated); non-triviality is MEASURED in the history
+process. The sampler draw is pinned to one constant in every process (it is an argument of the query).
 """
 from __future__ import annotations
 
@@ -243,6 +251,21 @@ class Builder:
             else:
                 self.ops.append([kind, a, sup])
 
+    def frag_hint_churn(self):
+        """constructed (PEP 585) hints are new objects on every evaluation and die after the query: a cache keyed by
+        the id() of HINTS (rather than wrappers) sees their addresses reused; truth values differ within the pool"""
+        r = self.rng
+        pool = [['list', 'bool'], ['list', 'str'], ['list', 'int'], ['list', 'object'], ['set', 'int'], ['set', 'bool'],
+                ['tuplevar', 'bool'], ['tuplevar', 'int'], ['dict', 'str', 'bool'], ['dict', 'str', 'int'], ['list', ['list', 'bool']],
+                ['list', ['list', 'int']]]
+        kind = r.choice(['sub', 'sub', 'thsub', 'theq'])
+        for _ in range(r.randint(6, 18)):
+            if r.random() < 0.3:
+                self.bear(r.choice(pool), r.choice(['[True]', '[1]', '["a"]', '{1}', '(True,)', '{"a": 1}', '[[1]]']),
+                          api=r.choice(['is_bearable', 'die_if_unbearable']), conf=0)
+            else:
+                self.ops.append([kind, r.choice(pool), r.choice(pool)])
+
     def frag_clear_ids(self):
         r = self.rng
         pool = PLAIN + LOOKALIKE_UNION + LOOKALIKE_LIST + LOOKALIKE_LIT[:7]
@@ -350,7 +373,7 @@ def gen_table_history(rng: random.Random) -> list:
     return b.ops
 
 
-FRAGS = [('redefine', 4), ('churn', 3), ('clear_ids', 3), ('lookalike', 3), ('conf', 1), ('fwdref', 3)]
+FRAGS = [('redefine', 4), ('churn', 3), ('hint_churn', 2), ('clear_ids', 3), ('lookalike', 3), ('conf', 1), ('fwdref', 3)]
 
 
 def gen_history(rng: random.Random) -> list:
@@ -799,7 +822,16 @@ def explore(ck: Check, n: int, seed: int, n_table: int, n_truth: int, shrink_sec
                                                     results[k].get('stats', {}), k < user_histories)
         else:
             small, layout = shrink(ops, oracle, max(shrink_deadline, time.time() + 20)), False
-            again = fails(small, oracle, robust=True) or fails(small, oracle, tries=2)
+            again = fails(small, oracle, robust=True)
+            if again is None and not any(op[0] in WORLD_OPS for op in small):
+                # address reuse is a matter of allocator state: the shrunk history repeated is still a history, and
+                # fails whatever the state of the process
+                for rep in (2, 4, 8):
+                    again = fails(small * rep, oracle, robust=True)
+                    if again is not None:
+                        small = small * rep
+                        break
+            again = again or fails(small, oracle, tries=2)
             if again is None:
                 small, again = ops, first
             at, hist_a, fresh_a, stats, observed = again
@@ -837,7 +869,15 @@ def replay(data: dict) -> int:
     print('history:')
     for j, o in enumerate(ops):
         print(f'  #{j:<3}', render(o))
-    got = fails(ops, oracle, tries=6)
+    got = fails(ops, oracle, tries=3)
+    if got is None and not any(op[0] in WORLD_OPS for op in ops):
+        # which address a new object gets depends on the allocator state of the process: repeat the history
+        for rep in (2, 4, 8, 16):
+            got = fails(ops * rep, oracle, tries=3)
+            if got is not None:
+                print(f'(the history repeated {rep} times)')
+                ops = ops * rep
+                break
     if got is None:
         print('replay: every query of the history is answered as in a fresh interpreter — not reproduced')
         return 0
@@ -869,8 +909,12 @@ def main(ck: Check) -> int:
                            '(==, repr validated by ==, id with pinned objects, forward-reference referents: partial) + table '
                            'theorems over the memoisation sites extracted from the source + fresh-interpreter differential and '
                            'table lock-step on the real code; partial: ' + '; '.join(partial),
-                assumptions=['KeyCongruent for the == discipline (hints that compare == mean the same) is an assumption of the '
-                             'theorems about beartype\'s hint semantics; it is exercised, not proved, by the look-alike histories',
+                assumptions=['KeyCongruent for the == discipline (hints that compare == mean the same) is proved for the concrete '
+                             'hint language of Core/Memo.lean §7 (class objects, Literal, Union, list / typing.List) and is an '
+                             'assumption for beartype\'s full hint semantics, exercised by the look-alike histories',
+                             'true fresh-interpreter answers are obtained for every query key whose occurrences disagree, for the '
+                             'first query of every batch process and for a seeded sample; the remaining keys are checked by '
+                             'agreement of all their occurrences across different histories',
                              'a fresh interpreter is a fork() of an interpreter that imported beartype and asked nothing',
                              'single-threaded histories (thread interleavings are C15); Python 3.12 only',
                              'exception messages, warnings and object addresses are not part of an answer'])
